@@ -42,17 +42,19 @@ def run(ctx, rep):
             def flat(self, **kw):
                 flats.append(kw)
                 return iter([(0, 2), (2, 2)])
-        frames = {2: Obj('f2', get_data=lambda: 'DATA2'), 0: Obj('f0', get_data=lambda: 'DATA0'), 1: Obj('f1', get_data=lambda: 'DATA1')}
+        # worlds need not be contiguous: 0, 3, 7 (inserted out of order)
+        frames = {7: Obj('f7', get_data=lambda: 'DATA7'), 0: Obj('f0', get_data=lambda: 'DATA0'), 3: Obj('f3', get_data=lambda: 'DATA3')}
         mdl = Obj('model', frames=frames, Meta=Obj('Meta', modal=modal), R=R())
+        nframes = len(frames)
         r = it.safe(f('BaseModel.get_data'), [mdl])
         if not modal:
             ok = r == 'DATA0'
             why = f'non-modal export is {r!r}, expected the data of frame 0'
         else:
-            ok = isinstance(r, dict) and r.get('Worlds', {}).get('values') == [0, 1, 2] and r.get('Access', {}).get('values') == [(0, 2), (2, 2)] \
-                and flats == [dict(w1s=[0, 1, 2], sort=True)] \
-                and [(x.get('value'), x.get('description')) for x in r.get('Frames', {}).get('values', [])] == [('DATA0', 'frame at world 0'), ('DATA1', 'frame at world 1'), ('DATA2', 'frame at world 2')]
-            why = f'modal export {r!r} (R.flat called with {flats}) is not worlds [0,1,2] sorted, R.flat(w1s=worlds, sort=True), one frame per world in order'
+            ok = isinstance(r, dict) and r.get('Worlds', {}).get('values') == [0, 3, 7] and r.get('Access', {}).get('values') == [(0, 2), (2, 2)] \
+                and flats == [dict(w1s=[0, 3, 7], sort=True)] and len(frames) == nframes \
+                and [(x.get('value'), x.get('description')) for x in r.get('Frames', {}).get('values', [])] == [('DATA0', 'frame at world 0'), ('DATA3', 'frame at world 3'), ('DATA7', 'frame at world 7')]
+            why = f'modal export {r!r} (R.flat called with {flats}) is not the model\'s worlds [0,3,7] sorted, R.flat(w1s=worlds, sort=True), one frame per world in order'
         rep.instance(R1, ok=ok, nontrivial=('get_data', modal))
         if not ok:
             rep.finding(R1, f'C20.R1/BaseModel.get_data/modal={modal}', m.loc(MODELS, f('BaseModel.get_data')), 'BaseModel.get_data', why)
@@ -132,7 +134,7 @@ def run(ctx, rep):
     # --- Access.flat sorted
     class Acc(dict):
         pass
-    acc = Acc({2: {5, 1}, 0: {3, 0}})
+    acc = Acc({2: [5, 1], 0: [3, 0]})
     r = it.generate(f('BaseModel.Access.flat'), [acc], dict(w1s=[0, 2], sort=True))
     ok = r == [(0, 0), (0, 3), (2, 1), (2, 5)]
     rep.instance(R3, ok=ok, nontrivial='Access.flat')
